@@ -571,6 +571,10 @@ func tryReplay(eng *Engine, o *Obligation, info map[string]any, repo string) boo
 		info["replay"] = "model input executed on the real code; clause kind " + o.Kind + " has no automatic output comparison"
 		return false
 	}
+	if g := clauseGhost(u, o.Clause); g != "" {
+		info["replay"] = "model input executed on the real code; the clause refers to ghost state (" + g + "), which a run of the real code does not expose: no automatic output comparison"
+		return false
+	}
 	// pin inputs and the real outputs, re-check the negated clause
 	pin := strings.Builder{}
 	for _, p := range x.pins {
@@ -883,4 +887,33 @@ func dropQuantified(script string) string {
 		out = append(out, l)
 	}
 	return strings.Join(out, "\n")
+}
+
+// clauseGhost names a ghost variable (function-local or trace ghost) the clause text mentions.
+func clauseGhost(u *Unit, clause string) string {
+	isIdent := func(c byte) bool {
+		return c == '_' || c >= '0' && c <= '9' || c >= 'a' && c <= 'z' || c >= 'A' && c <= 'Z'
+	}
+	has := func(name string) bool {
+		for i := 0; i+len(name) <= len(clause); i++ {
+			if clause[i:i+len(name)] == name && (i == 0 || !isIdent(clause[i-1]) && clause[i-1] != '.') &&
+				(i+len(name) == len(clause) || !isIdent(clause[i+len(name)])) {
+				return true
+			}
+		}
+		return false
+	}
+	if u.fc != nil {
+		for _, g := range u.fc.Ghosts {
+			if has(g.Name) {
+				return g.Name
+			}
+		}
+	}
+	for _, g := range sortedKeys(u.eng.cs.Globals) {
+		if has(g) {
+			return g
+		}
+	}
+	return ""
 }
